@@ -21,9 +21,23 @@ fn c18_level_conversion_is_an_order_preserving_bijection() {
     assert!((ll(a) <= lf(f)) == (tl(a) <= tf(f)), "C18.level_vs_filter.enabledness_preserved");
 }
 
-// NOTE: all recording state lives INSIDE the collector (heap), not in statics: Kani 0.68 was observed to alias a
-// harness-module static with tracing-core's private MAX_LEVEL when `LevelFilter::current()` (#[inline(always)]) is
-// inlined into another crate (DESIGN.md section 7).
+// The bridge reads two pieces of tracing-core's global state: the thread's current default dispatcher
+// (dispatch::get_default) and the published maximum level (LevelFilter::current).  Both are under contract elsewhere
+// (C02: get_default hands the closure the innermost live scope's dispatcher, else the global one; C19/C01: current()
+// reads back what was published), so here they are CONTRACT STUBS over tagged harness state.  Driving the real statics
+// from this crate is not an option under Kani 0.68: SCOPED_COUNT / GLOBAL_INIT start as eight zero bytes and MAX_LEVEL
+// as 5, the compiler aliases the constants Level::TRACE / LevelFilter::OFF to them, and with_default / set_max WRITE
+// them (DESIGN.md 0a; the alias scan made those harnesses undecided under every code-generation order).
+// Recording state lives inside the collector (heap).
+vstatic!(CUR_DISPATCH: AtomicUsize = AtomicUsize::new(0));
+vstatic!(CUR_MAX: AtomicUsize = AtomicUsize::new(5));
+fn get_default_stub<T, F>(mut f: F) -> T where F: FnMut(&Dispatch) -> T {
+    let p = CUR_DISPATCH.load(SeqCst) as *const Dispatch;
+    assert!(!p.is_null(), "C18.setup.a_current_dispatcher_is_installed");
+    f(unsafe { &*p })
+}
+fn current_stub() -> LevelFilter { tf(CUR_MAX.load(SeqCst) as u8) }
+fn install(d: &Dispatch, max: u8) { CUR_DISPATCH.store(d as *const Dispatch as usize, SeqCst); CUR_MAX.store(max as usize, SeqCst); }
 use std::sync::Arc;
 struct St { enabled_calls: AtomicUsize, events: AtomicUsize, meta_level_ok: AtomicUsize, meta_target_ok: AtomicUsize, event_level: AtomicUsize, want_level: AtomicUsize }
 fn st(want: u8) -> Arc<St> { Arc::new(St { enabled_calls: AtomicUsize::new(0), events: AtomicUsize::new(0), meta_level_ok: AtomicUsize::new(1), meta_target_ok: AtomicUsize::new(1), event_level: AtomicUsize::new(0), want_level: AtomicUsize::new(want as usize) }) }
@@ -53,21 +67,23 @@ impl Collect for Rec {
 #[kani::proof]
 #[kani::unwind(20)]
 #[kani::stub(core::fmt::Formatter::pad, pad_stub)]
+#[kani::stub(tracing_core::dispatch::get_default, get_default_stub)]
+#[kani::stub(tracing_core::metadata::LevelFilter::current, current_stub)]
 fn c18_one_event_iff_collector_accepts_level_and_target() {
     use log::Log;
     let lvl: u8 = nd(); kani::assume(lvl >= 1 && lvl <= 5);
     let accept: bool = nd(); let max: u8 = nd(); kani::assume(max <= 5);
     // C01's invariant as precondition: the published MAX_LEVEL bounds what the current collector accepts
     kani::assume(!accept || lvl <= max);
-    LevelFilter::__verif_set_max(tf(max));
-    assert!(LevelFilter::current() == tf(max), "C18.setup.max_level_reads_back_across_crates");
     let s = st(lvl);
     let d = Dispatch::__verif_unregistered(Rec { accept, s: s.clone() });
+    install(&d, max);
+    assert!(LevelFilter::current() == tf(max), "C18.setup.max_level_reads_back_across_crates");
     let tracer = LogTracer::new();
-    dispatch::with_default(&d, || {
+    {
         let rec = log::Record::builder().args(format_args!("hello")).level(ll(lvl)).target(TARGET).file(Some("f.rs")).line(Some(7)).module_path(Some("m")).build();
         tracer.log(&rec);
-    });
+    }
     assert!(s.events.load(SeqCst) == accept as usize, "C18.bridge.exactly_one_event_iff_collector_accepts_else_none");
     assert!(!accept || s.event_level.load(SeqCst) == lvl as usize, "C18.bridge.event_carries_the_records_level");
     assert!(s.meta_level_ok.load(SeqCst) == 1 && s.meta_target_ok.load(SeqCst) == 1, "C18.bridge.collector_is_asked_about_the_records_own_level_and_target");
@@ -78,11 +94,13 @@ fn c18_one_event_iff_collector_accepts_level_and_target() {
 #[kani::proof]
 #[kani::unwind(20)]
 #[kani::stub(core::fmt::Formatter::pad, pad_stub)]
+#[kani::stub(tracing_core::dispatch::get_default, get_default_stub)]
+#[kani::stub(tracing_core::metadata::LevelFilter::current, current_stub)]
 fn c18_ignored_crate_prefix_yields_no_event_bounded() {
     use log::Log;
-    LevelFilter::__verif_set_max(LevelFilter::TRACE);
     let s = st(3);
     let d = Dispatch::__verif_unregistered(Rec { accept: true, s: s.clone() });
+    install(&d, 5);
     // which list: 0 = [my_crate], 1 = [other], 2 = [my_crate, other], 3 = [other, my_crate], 4 = [other, noisy]
     let shape: u8 = nd(); kani::assume(shape < 5);
     let b = LogTracer::builder();
@@ -90,10 +108,10 @@ fn c18_ignored_crate_prefix_yields_no_event_bounded() {
                           3 => b.ignore_crate("other").ignore_crate("my_crate"), _ => b.ignore_crate("other").ignore_crate("noisy") };
     let tracer = b.__verif_build();
     let ignored = shape == 0 || shape == 2 || shape == 3;
-    dispatch::with_default(&d, || {
+    {
         let rec = log::Record::builder().args(format_args!("hello")).level(log::Level::Info).target(TARGET).build();
         tracer.log(&rec);
-    });
+    }
     kani::cover!(shape == 2 && s.events.load(SeqCst) == 0, "C18.reachable.two_entries_first_matches_and_record_dropped");
     kani::cover!(shape == 4 && s.events.load(SeqCst) == 1, "C18.reachable.two_entries_none_matches_and_record_bridged");
     assert!(s.events.load(SeqCst) == (!ignored) as usize, "C18.bridge.target_under_ANY_ignored_prefix_yields_none_otherwise_one");
